@@ -177,6 +177,7 @@ BUILTINS = {'len', 'range', 'int', 'float', 'complex', 'abs', 'sum', 'max', 'min
             'enumerate', 'zip', 'isinstance', 'hasattr', 'getattr', 'type', 'str', 'print', 'round', 'pow', 'sorted',
             'dir', 'eval', 'super', 'property', 'object', 'bool', 'dict', 'set', 'any', 'all', 'map', 'divmod',
             'ValueError', 'TypeError', 'AssertionError', 'NotImplementedError', 'Exception', 'ImportError',
-            'ModuleNotFoundError', 'slice', 'id', 'iter', 'next', 'repr', 'open', 'callable'}
+            'ModuleNotFoundError', 'slice', 'id', 'iter', 'next', 'repr', 'open', 'callable', 'globals', 'vars', 'locals',
+            'KeyError', 'IndexError', 'RuntimeError', 'AttributeError'}
 
 
